@@ -17,8 +17,11 @@ from core import lean  # noqa: E402
 
 for path in sorted(glob.glob(os.path.join(HERE, 'props', 'c[0-9][0-9].py'))):
     pid = os.path.basename(path)[:-3].upper()
-    mod = importlib.import_module(f'props.{pid.lower()}')
-    chk = getattr(mod, pid)('quick', 0)
-    for rel, content in chk.gen_tables().items():
-        changed = lean.write_if_changed(rel, content)
-        print(f'{pid}: {rel} {"updated" if changed else "unchanged"}')
+    try:
+        mod = importlib.import_module(f'props.{pid.lower()}')
+        chk = getattr(mod, pid)('quick', 0)
+        for rel, content in chk.gen_tables().items():
+            changed = lean.write_if_changed(rel, content)
+            print(f'{pid}: {rel} {"updated" if changed else "unchanged"}')
+    except Exception as err:  # pylint: disable=broad-except
+        print(f'{pid}: table generation failed ({type(err).__name__}: {err}); the check regenerates its tables itself')
